@@ -30,7 +30,17 @@ container structure, so its behaviour under removal is modelled as such (`Cur32`
 Exactly characterised domain: containers are array or bitmap containers with the canonical kind for their
 cardinality (array iff ≤ 4096).  Run containers (created when a 2^16 chunk becomes completely full, and kept
 by `toEfficientContainer` afterwards) are NOT modelled for iterate-while-remove: the model tracks `everFull` and
-answers `unmodelled`; such cases are replayed against the implementation and judged by the monitor only.
+answers `unmodelled`; such cases are replayed against the implementation and judged by the monitor only
+(harness suite `x13`).  On that domain the model agrees with the real code on every generated case (tie).
+
+The tie also refuted the trusted-base assumption for ONE native operation, the in-place `Xor` of roaring v2.19.0;
+the model reproduces what is observable at once and leaves the rest to the monitor-only suite:
+  * `selfXorPanics`: 64-bit `x.Xor(x)` panics once `x` has two high-32-bit keys;
+  * `xorOperandAfter`: the 32-bit `Xor` also xors into the OPERAND's bitmap container when the receiver's container
+    of that chunk is an array container;
+  * `xorShares`: after a native `Xor` receiver and operand may share a container object (64 bit: the operand's
+    sub-bitmap is inserted without `Clone`); the later aliasing is not modelled — the generator of the tied suite
+    continues on fresh clones, suite `x13` shows the aliasing to the monitor.
 -/
 namespace Dawgs.C13
 
